@@ -219,7 +219,7 @@ def run(chk):
                 problems = run_round(case)
             except Exception as e:  # pylint: disable=broad-except
                 import traceback
-                raise common.Infra('round failed to run: %r %s' % (e, traceback.format_exc()[-500:]))
+                common.raise_for(common.describe_exc(e))
             chk.case(repr(case), n >= 4, {'clients': n, 'aborting': sum(1 for p in case['plans'] if p['abort_after'] is not None),
                                           'seconds': round(time.time() - t0, 1)})
             chk.count('clients:%d' % n)
